@@ -228,6 +228,11 @@ def run_property(prop: str, tier: str, specs, *, level="model_checking", crash_i
                                                          "populations", "checkpoints", "resumes",
                                                          "tie_iterations")}, [[]]
             stats["iterations"] = ins_stats["iterations"] if ins_stats else 0
+        from .nsruns import validate_trainings
+
+        tmis, n_trainings, tstates = validate_trainings(list(hs) + (list(ihs) if ins_specs else []), scratch)
+        for t in tmis:
+            v.mismatch(t)
         if stats["iterations"] == 0:
             raise MachineryError("no run of the corpus produced an iteration: " + (crashed[0]["dir"] if crashed else ""))
         all_failed = bool(hs) and len(crashed) == len(hs) and all(h["codes"][-1] == 3 for h in hs)
@@ -261,6 +266,7 @@ def run_property(prop: str, tier: str, specs, *, level="model_checking", crash_i
             "traces_validated_against_impl": len(hs) + (ins_stats["histories"] if ins_stats else 0),
             "model_states": res.distinct, "model_bounds": bounds,
             "histories": len(hs), "processes": sum(len(h["codes"]) for h in hs),
+            "flow_trainings_validated": n_trainings,
             "scripted_behaviours_replayed": n_scripted, "scripted_replays_equal_to_spec": n_replay_ok,
             "histories_not_completed": len(crashed),
             **{k: stats.get(k, 0) for k in ("events", "iterations", "populations", "population_batches_hooked",
